@@ -90,32 +90,143 @@ static std::string step(Line const& l)
         auto e3 = ym - ec::months{-k};
         auto e4 = ym;
         e4 += ec::months{k};
-        auto e5 = ec::year_month_day{ec::year{y}, ec::month{m}, ec::day{1}} + ec::months{k};
-        auto e6 = ec::year_month_day_last{ec::year{y}, ec::month_day_last{ec::month{m}}} + ec::months{k};
-        auto e7 = ec::year_month_weekday{ec::year{y}, ec::month{m}, ec::weekday_indexed{ec::weekday{1}, 1}} + ec::months{k};
-        auto e8 = ec::year_month_weekday_last{ec::year{y}, ec::month{m}, ec::weekday_last{ec::weekday{1}}} + ec::months{k};
-        auto e10 = ec::year_month_weekday_last{ec::year{y}, ec::month{m}, ec::weekday_last{ec::weekday{1}}};
-        e10 -= ec::months{-k};
-        auto e11 = ec::year_month_weekday{ec::year{y}, ec::month{m}, ec::weekday_indexed{ec::weekday{1}, 1}};
-        e11 += ec::months{k};
-        auto e9 = ec::year_month_day{ec::year{y}, ec::month{m}, ec::day{1}};
+        // the other fields (day 28, weekday Wednesday, index 3) must survive month arithmetic unchanged
+        auto const wdi = ec::weekday_indexed{ec::weekday{3}, 3};
+        auto const wdl = ec::weekday_last{ec::weekday{3}};
+        auto e5  = ec::year_month_day{ec::year{y}, ec::month{m}, ec::day{28}} + ec::months{k};
+        auto e5b = ec::months{k} + ec::year_month_day{ec::year{y}, ec::month{m}, ec::day{28}};
+        auto e6  = ec::year_month_day_last{ec::year{y}, ec::month_day_last{ec::month{m}}} + ec::months{k};
+        auto e6b = ec::months{k} + ec::year_month_day_last{ec::year{y}, ec::month_day_last{ec::month{m}}};
+        auto e6c = ec::year_month_day_last{ec::year{y}, ec::month_day_last{ec::month{m}}} - ec::months{-k};
+        auto e7  = ec::year_month_weekday{ec::year{y}, ec::month{m}, wdi} + ec::months{k};
+        auto e7b = ec::months{k} + ec::year_month_weekday{ec::year{y}, ec::month{m}, wdi};
+        auto e7c = ec::year_month_weekday{ec::year{y}, ec::month{m}, wdi} - ec::months{-k};
+        auto e8  = ec::year_month_weekday_last{ec::year{y}, ec::month{m}, wdl} + ec::months{k};
+        auto e8b = ec::months{k} + ec::year_month_weekday_last{ec::year{y}, ec::month{m}, wdl};
+        auto e8c = ec::year_month_weekday_last{ec::year{y}, ec::month{m}, wdl} - ec::months{-k};
+        auto e9  = ec::year_month_day{ec::year{y}, ec::month{m}, ec::day{28}};
         e9 -= ec::months{-k};
+        auto e9b = ec::year_month_day{ec::year{y}, ec::month{m}, ec::day{28}} - ec::months{-k};
+        auto e10 = ec::year_month_weekday_last{ec::year{y}, ec::month{m}, wdl};
+        e10 -= ec::months{-k};
+        auto e11 = ec::year_month_weekday{ec::year{y}, ec::month{m}, wdi};
+        e11 += ec::months{k};
+        auto e12 = ec::year_month_day_last{ec::year{y}, ec::month_day_last{ec::month{m}}};
+        e12 += ec::months{k};
         auto s1 = sc::year_month{sc::year{y}, sc::month{m}} + sc::months{k};
         auto f  = [](auto const& x) { return t2(int{x.year()}, unsigned{x.month()}); };
-        return out(with_siblings(f(e1), {f(e2), f(e3), f(e4), f(e5), f(e6), f(e7), f(e8), f(e9), f(e10), f(e11)}), f(s1));
+        auto fd = [&](ec::year_month_day const& x) { return f(x) + (unsigned{x.day()} == 28 ? "" : ",day=" + std::to_string(unsigned{x.day()})); };
+        auto fw = [&](ec::year_month_weekday const& x) {
+            return f(x) + ((x.weekday().c_encoding() == 3 && x.index() == 3) ? "" : ",wdi=" + std::to_string(x.weekday().c_encoding()) + "[" + std::to_string(x.index()) + "]");
+        };
+        auto fl = [&](ec::year_month_weekday_last const& x) { return f(x) + (x.weekday().c_encoding() == 3 ? "" : ",wdl=" + std::to_string(x.weekday().c_encoding())); };
+        return out(with_siblings(f(e1), {f(e2), f(e3), f(e4), fd(e5), fd(e5b), f(e6), f(e6b), f(e6c), fw(e7), fw(e7b), fw(e7c), fl(e8), fl(e8b), fl(e8c),
+                       fd(e9), fd(e9b), fl(e10), fw(e11), f(e12)}),
+            f(s1));
     }
     if (l.op == "year_plus") {
         auto y = static_cast<int>(l.i("y"));
         auto k = static_cast<int>(l.i("k"));
+        auto const wdi = ec::weekday_indexed{ec::weekday{3}, 3};
+        auto const wdl = ec::weekday_last{ec::weekday{3}};
         auto e1 = ec::year{y} + ec::years{k};
         auto e2 = ec::years{k} + ec::year{y};
         auto e3 = ec::year{y};
         e3 += ec::years{k};
-        auto e4 = ec::year_month{ec::year{y}, ec::month{1}} + ec::years{k};
-        auto e5 = ec::year_month_day{ec::year{y}, ec::month{1}, ec::day{1}} + ec::years{k};
+        auto e3b = ec::year{y} - ec::years{-k};
+        auto e3c = ec::year{y};
+        e3c -= ec::years{-k};
+        auto e4  = ec::year_month{ec::year{y}, ec::month{7}} + ec::years{k};
+        auto e4b = ec::years{k} + ec::year_month{ec::year{y}, ec::month{7}};
+        auto e4c = ec::year_month{ec::year{y}, ec::month{7}} - ec::years{-k};
+        auto e4d = ec::year_month{ec::year{y}, ec::month{7}};
+        e4d += ec::years{k};
+        auto e5  = ec::year_month_day{ec::year{y}, ec::month{7}, ec::day{28}} + ec::years{k};
+        auto e5b = ec::years{k} + ec::year_month_day{ec::year{y}, ec::month{7}, ec::day{28}};
+        auto e5c = ec::year_month_day{ec::year{y}, ec::month{7}, ec::day{28}} - ec::years{-k};
+        auto e5d = ec::year_month_day{ec::year{y}, ec::month{7}, ec::day{28}};
+        e5d -= ec::years{-k};
+        auto e6  = ec::year_month_day_last{ec::year{y}, ec::month_day_last{ec::month{7}}} + ec::years{k};
+        auto e6b = ec::years{k} + ec::year_month_day_last{ec::year{y}, ec::month_day_last{ec::month{7}}};
+        auto e6c = ec::year_month_day_last{ec::year{y}, ec::month_day_last{ec::month{7}}} - ec::years{-k};
+        auto e7  = ec::year_month_weekday{ec::year{y}, ec::month{7}, wdi} + ec::years{k};
+        auto e7b = ec::years{k} + ec::year_month_weekday{ec::year{y}, ec::month{7}, wdi};
+        auto e7c = ec::year_month_weekday{ec::year{y}, ec::month{7}, wdi} - ec::years{-k};
+        auto e8  = ec::year_month_weekday_last{ec::year{y}, ec::month{7}, wdl} + ec::years{k};
+        auto e8b = ec::years{k} + ec::year_month_weekday_last{ec::year{y}, ec::month{7}, wdl};
+        auto e8c = ec::year_month_weekday_last{ec::year{y}, ec::month{7}, wdl} - ec::years{-k};
         auto s1 = sc::year{y} + sc::years{k};
-        return out(with_siblings(std::to_string(int{e1}), {std::to_string(int{e2}), std::to_string(int{e3}), std::to_string(int{e4.year()}), std::to_string(int{e5.year()})}),
+        auto g  = [](auto const& x) { return std::to_string(int{x.year()}) + (unsigned{x.month()} == 7 ? "" : ",m=" + std::to_string(unsigned{x.month()})); };
+        auto gd = [&](ec::year_month_day const& x) { return g(x) + (unsigned{x.day()} == 28 ? "" : ",day=" + std::to_string(unsigned{x.day()})); };
+        auto gw = [&](ec::year_month_weekday const& x) { return g(x) + ((x.weekday().c_encoding() == 3 && x.index() == 3) ? "" : ",wdi"); };
+        auto gl = [&](ec::year_month_weekday_last const& x) { return g(x) + (x.weekday().c_encoding() == 3 ? "" : ",wdl"); };
+        return out(with_siblings(std::to_string(int{e1}), {std::to_string(int{e2}), std::to_string(int{e3}), std::to_string(int{e3b}), std::to_string(int{e3c}),
+                       g(e4), g(e4b), g(e4c), g(e4d), gd(e5), gd(e5b), gd(e5c), gd(e5d), g(e6), g(e6b), g(e6c), gw(e7), gw(e7b), gw(e7c), gl(e8), gl(e8b), gl(e8c)}),
             std::to_string(int{s1}));
+    }
+    if (l.op == "year_diff") {
+        auto e = ec::year{static_cast<int>(l.i("a"))} - ec::year{static_cast<int>(l.i("b"))};
+        auto s = sc::year{static_cast<int>(l.i("a"))} - sc::year{static_cast<int>(l.i("b"))};
+        return out(std::to_string(e.count()), std::to_string(s.count()));
+    }
+    if (l.op == "incdec") {   // ++x, x++, --x, x-- of day / month / year / weekday; iso_encoding
+        auto v = static_cast<int>(l.i("v"));
+        auto what = l.str("what");
+        auto fmt4 = [](auto a, auto b, auto c, auto d) { return std::to_string(a) + "," + std::to_string(b) + "," + std::to_string(c) + "," + std::to_string(d); };
+        if (what == "day") {
+            ec::day a{static_cast<unsigned>(v)}, b{static_cast<unsigned>(v)}, c{static_cast<unsigned>(v)}, d{static_cast<unsigned>(v)};
+            sc::day sa{static_cast<unsigned>(v)}, sb{static_cast<unsigned>(v)}, sc_{static_cast<unsigned>(v)}, sd{static_cast<unsigned>(v)};
+            ++a; auto b0 = b++; --c; auto d0 = d--; ++sa; auto sb0 = sb++; --sc_; auto sd0 = sd--;
+            return out(fmt4(unsigned{a}, unsigned{b0} * 1000 + unsigned{b}, unsigned{c}, unsigned{d0} * 1000 + unsigned{d}),
+                fmt4(unsigned{sa}, unsigned{sb0} * 1000 + unsigned{sb}, unsigned{sc_}, unsigned{sd0} * 1000 + unsigned{sd}));
+        }
+        if (what == "month") {
+            ec::month a{static_cast<unsigned>(v)}, b{static_cast<unsigned>(v)}, c{static_cast<unsigned>(v)}, d{static_cast<unsigned>(v)};
+            sc::month sa{static_cast<unsigned>(v)}, sb{static_cast<unsigned>(v)}, sc_{static_cast<unsigned>(v)}, sd{static_cast<unsigned>(v)};
+            ++a; auto b0 = b++; --c; auto d0 = d--; ++sa; auto sb0 = sb++; --sc_; auto sd0 = sd--;
+            return out(fmt4(unsigned{a}, unsigned{b0} * 1000 + unsigned{b}, unsigned{c}, unsigned{d0} * 1000 + unsigned{d}),
+                fmt4(unsigned{sa}, unsigned{sb0} * 1000 + unsigned{sb}, unsigned{sc_}, unsigned{sd0} * 1000 + unsigned{sd}));
+        }
+        if (what == "year") {
+            ec::year a{v}, b{v}, c{v}, d{v};
+            sc::year sa{v}, sb{v}, sc_{v}, sd{v};
+            ++a; auto b0 = b++; --c; auto d0 = d--; ++sa; auto sb0 = sb++; --sc_; auto sd0 = sd--;
+            return out(fmt4(int{a}, int{b0} * 100000LL + int{b}, int{c}, int{d0} * 100000LL + int{d}),
+                fmt4(int{sa}, int{sb0} * 100000LL + int{sb}, int{sc_}, int{sd0} * 100000LL + int{sd}));
+        }
+        if (what == "weekday") {
+            ec::weekday a{static_cast<unsigned>(v)}, b{static_cast<unsigned>(v)}, c{static_cast<unsigned>(v)}, d{static_cast<unsigned>(v)};
+            sc::weekday sa{static_cast<unsigned>(v)}, sb{static_cast<unsigned>(v)}, sc_{static_cast<unsigned>(v)}, sd{static_cast<unsigned>(v)};
+            auto iso = a.iso_encoding(); auto siso = sa.iso_encoding();
+            ++a; auto b0 = b++; --c; auto d0 = d--; ++sa; auto sb0 = sb++; --sc_; auto sd0 = sd--;
+            return out(fmt4(a.c_encoding(), b0.c_encoding() * 1000 + b.c_encoding(), c.c_encoding(), d0.c_encoding() * 1000 + d.c_encoding()) + "," + std::to_string(iso),
+                fmt4(sa.c_encoding(), sb0.c_encoding() * 1000 + sb.c_encoding(), sc_.c_encoding(), sd0.c_encoding() * 1000 + sd.c_encoding()) + "," + std::to_string(siso));
+        }
+        return "bad-op\tbad-op";
+    }
+    if (l.op == "oks") {      // ok() of the partial-date types: month_day, weekday_indexed, month_weekday(_last), year_month, year_month_day_last
+        auto y = static_cast<int>(l.i("y"));
+        auto m = static_cast<unsigned>(l.i("m"));
+        auto d = static_cast<unsigned>(l.i("d"));
+        auto w = static_cast<unsigned>(l.i("w"));
+        auto i = static_cast<unsigned>(l.i("i"));
+        auto b = [](bool x) { return x ? '1' : '0'; };
+        std::string re, rs;
+        re += b(ec::month_day{ec::month{m}, ec::day{d}}.ok());
+        rs += b(sc::month_day{sc::month{m}, sc::day{d}}.ok());
+        re += b(ec::weekday_indexed{ec::weekday{w}, i}.ok());
+        rs += b(sc::weekday_indexed{sc::weekday{w}, i}.ok());
+        re += b(ec::month_weekday{ec::month{m}, ec::weekday_indexed{ec::weekday{w}, i}}.ok());
+        rs += b(sc::month_weekday{sc::month{m}, sc::weekday_indexed{sc::weekday{w}, i}}.ok());
+        re += b(ec::month_weekday_last{ec::month{m}, ec::weekday_last{ec::weekday{w}}}.ok());
+        rs += b(sc::month_weekday_last{sc::month{m}, sc::weekday_last{sc::weekday{w}}}.ok());
+        re += b(ec::year_month{ec::year{y}, ec::month{m}}.ok());
+        rs += b(sc::year_month{sc::year{y}, sc::month{m}}.ok());
+        re += b(ec::year_month_day_last{ec::year{y}, ec::month_day_last{ec::month{m}}}.ok());
+        rs += b(sc::year_month_day_last{sc::year{y}, sc::month_day_last{sc::month{m}}}.ok());
+        re += b(ec::month_day_last{ec::month{m}}.ok());
+        rs += b(sc::month_day_last{sc::month{m}}.ok());
+        return out(re, rs);
     }
     if (l.op == "wd_plus" || l.op == "wd_minus" || l.op == "wd_add_assign" || l.op == "wd_sub_assign") {
         auto w = static_cast<unsigned>(l.i("w"));
